@@ -114,7 +114,7 @@ def _case(tok: str, mode: str, k: int):
     return tok.upper() if k % 2 == 0 else tok.lower()
 
 
-SPLIT_STYLES = ("plain", "lead_amp", "comment_between", "blank_between", "amp_comment")
+SPLIT_STYLES = ("plain", "lead_amp", "comment_between", "blank_between", "amp_comment", "spaces_between")
 
 
 def render(stmts, lay: Layout = None) -> Rendered:
@@ -174,6 +174,8 @@ def render(stmts, lay: Layout = None) -> Rendered:
                             lines.append(ccomment)
                         elif style == "blank_between":
                             lines.append(lay.fixed_comment_char)
+                        elif style == "spaces_between":
+                            lines.append("   ")
                         cur = "     " + lay.fixed_cont_char + indent + "  "
                     else:
                         # amp_comment: an ordinary trailing comment (itself containing '&') after the marker
@@ -182,6 +184,8 @@ def render(stmts, lay: Layout = None) -> Rendered:
                             lines.append(indent + "  ! continuation comment")
                         elif style == "blank_between":
                             lines.append("")
+                        elif style == "spaces_between":
+                            lines.append("   ")     # a line of blanks only is as empty as an empty one
                         cur = indent + "    " + ("& " if style == "lead_amp" else "")
                     gap = ""
                 else:
